@@ -231,13 +231,16 @@ def fordFulkerson (n s t : Nat) : Nat → List FEdge → List FEdge × List Nat
 
 def zeroFlow (E : List Edge) : List FEdge := E.map (fun e => ⟨e.1, e.2.1, e.2.2, 0⟩)
 
+/-- the network underneath a flow assignment -/
+def netw (L : List FEdge) : List Edge := L.map (fun e => (e.u, e.v, e.c))
+
 /-- reference maximum flow value with its certificate check; `none` = no certificate -/
 def maxFlowRef (n : Nat) (E : List Edge) (s t : Nat) : Option Nat :=
   if s = t then some 0 else
   let fuel := (E.map (·.2.2)).sum + 1
   let r := fordFulkerson n s t fuel (zeroFlow E)
   let val := outflow r.1 s - inflow r.1 s
-  if flowCheck n r.1 s t r.2 val then some val else none
+  if flowCheck n r.1 s t r.2 val && netw r.1 == E then some val else none
 
 /-- Edmonds-Karp's outer loop as the Rust code has it, on an abstract "find an augmenting
 path" step: `none` = the fuel ran out (the loop did not terminate within `fuel` rounds).
@@ -369,16 +372,23 @@ def indexOf? (ids : List Nat) (x : Nat) : Option Nat :=
 def projNodes (st : Store) (label : Option Nat) : List Nat :=
   (st.nodes.filter (fun nd => match label with | none => true | some l => decide (l ∈ nd.2))).map (·.1)
 
-/-- edges of the projection over dense indices: type filter, both endpoints selected,
-weight from the property or 1 when absent / not requested -/
+def typeOk (ty : Option Nat) (t : Nat) : Bool :=
+  match ty with
+  | none => true
+  | some x => t == x
+
+/-- one store edge in the projection: type filter, both endpoints selected, weight from the
+property or 1 when absent / not numeric / not requested -/
+def projEdge (ids : List Nat) (ty : Option Nat) (weighted : Bool) (e : Nat × Nat × Nat × Option Nat) : Option Edge :=
+  if typeOk ty e.2.2.1 then
+    match indexOf? ids e.1, indexOf? ids e.2.1 with
+    | some u, some v => some (u, v, if weighted then e.2.2.2.getD 1 else 1)
+    | _, _ => none
+  else none
+
+/-- edges of the projection over dense indices, in store listing order -/
 def projEdges (st : Store) (label ty : Option Nat) (weighted : Bool) : List Edge :=
-  let ids := projNodes st label
-  st.edges.filterMap (fun e =>
-    if (match ty with | none => true | some t => e.2.2.1 == t) then
-      match indexOf? ids e.1, indexOf? ids e.2.1 with
-      | some u, some v => some (u, v, if weighted then e.2.2.2.getD 1 else 1)
-      | _, _ => none
-    else none)
+  st.edges.filterMap (projEdge (projNodes st label) ty weighted)
 
 def buildView (st : Store) (label ty : Option Nat) (weighted : Bool) : View :=
   ofEdges (projNodes st label).length (projEdges st label ty weighted)
